@@ -9,6 +9,8 @@ from __future__ import annotations
 import os
 import sys
 
+from . import core as _core
+
 STATE = {"installed": False, "available": False, "evals": 0, "by_class": {}}
 
 
@@ -31,6 +33,12 @@ def install() -> bool:
 
     def _count(self):
         STATE["evals"] += 1
+        if not getattr(self, "_vf_seen", False):
+            try:
+                self._vf_seen = True
+                _core.SEEN_STREAMS.append(self)
+            except Exception:
+                pass
         n = type(self).__name__
         STATE["by_class"][n] = STATE["by_class"].get(n, 0) + 1
 
